@@ -38,7 +38,7 @@ func init() {
 		ID:    "C02",
 		Level: "exploration",
 		Rule: "each case is one seeded history on a real producing node (60–300 momentums of transfers, receives, embedded-contract calls incl. failing ones, blocks acknowledging momentum F−d, skipped slots) " +
-			"replayed on followers under 7 delivery schedules; distinct_nontrivial counts distinct (schedule, history) pairs that contained at least one account block evaluated against a non-frontier momentum " +
+			"replayed on followers under 9 delivery schedules; distinct_nontrivial counts distinct (schedule, history) pairs that contained at least one account block evaluated against a non-frontier momentum " +
 			"plus distinct schedule features exercised (batch sizes, gossip modes, restart points, ack depths)",
 		Cases:       c02Cases,
 		Run:         c02Run,
@@ -452,7 +452,7 @@ func c02Run(c *fw.C, caseID string) {
 
 	refDump := P.DumpFrontier()
 	refQueries := c02Queries(P, r.Int63())
-	schedules := []string{"one-by-one", "random-batches", "gossip-all-first", "gossip-subset-late", "warm-caches", "restarts", "rlp-wire", "competing-siblings-heard"}
+	schedules := []string{"one-by-one", "random-batches", "gossip-all-first", "gossip-subset-late", "warm-caches", "restarts", "rlp-wire", "competing-siblings-heard", "broken-copies-first"}
 	var rawRef map[string]string
 	for si, sched := range schedules {
 		sr := rand.New(rand.NewSource(r.Int63()))
@@ -542,7 +542,7 @@ func c02Deliver(c *fw.C, P, F *simnet.Node, sched string, r *rand.Rand, gossip [
 			if r.Intn(5) == 0 {
 				size = 1 + r.Intn(128)
 			}
-		case "gossip-all-first", "competing-siblings-heard":
+		case "gossip-all-first", "competing-siblings-heard", "broken-copies-first":
 			size = 1 + r.Intn(3)
 		}
 		to := h + uint64(size)
@@ -584,6 +584,27 @@ func c02Deliver(c *fw.C, P, F *simnet.Node, sched string, r *rand.Rand, gossip [
 					c.Count("follower_restarts_with_deleted_consensus_cache", 1)
 				}
 			}
+		}
+		if sched == "broken-copies-first" {
+			// a faulty peer is faster: before the producer's momentums arrive the follower is offered copies of them
+			// that fail late in verification (signature flipped; state hash changed and re-signed is not possible for a
+			// third party, so: signature, or the content list cut short). Refusing them must leave nothing behind.
+			bad := simnet.CloneBatch(P.Range(h+1, to))
+			k := r.Intn(len(bad))
+			m := bad[k].Momentum
+			how := "signature"
+			if len(m.Content) > 1 && r.Intn(2) == 0 {
+				how = "account-block-missing"
+				bad[k].AccountBlocks = bad[k].AccountBlocks[:len(bad[k].AccountBlocks)-1]
+			} else {
+				m.Signature = append([]byte{}, m.Signature...)
+				m.Signature[r.Intn(len(m.Signature))] ^= 1 << uint(r.Intn(8))
+			}
+			if _, err := F.InsertChain(bad); err == nil {
+				c.Violation("follower-accepts-broken-copy "+how, map[string]interface{}{"height": m.Height})
+				return false
+			}
+			c.Count("broken_copies_refused_before_the_genuine_momentum "+how, 1)
 		}
 		batch := simnet.CloneBatch(P.Range(h+1, to))
 		if sched == "rlp-wire" {
